@@ -34,6 +34,7 @@ package main
 //@ func format(b []byte, checkOnly bool) (out string, err error)
 //@   props C18
 //@   let perr = callres("Parse", 1, 1)
+//@   ensures[C18 parses-the-input-itself] ncalls("Parse") == 1 && callarg("Parse", 1, 0).(string) == old(string(b))
 //@   ensures[C18 parse-first] ncalls("Parse") == 1 && (perr != nil ==> err != nil && wraps(err, errParse) && out == "" && ncalls("(*Program).Format") == 0)
 //@   ensures[C18 formatted-text] err == nil ==> ncalls("(*Program).Format") == 1 && out == callres("(*Program).Format", 1, 0).(string)
 //@   ensures[C18 check-tells-truth] checkOnly && perr == nil ==> ((err == nil) <==> (callarg("Parse", 1, 0).(string) == callres("(*Program).Format", 1, 0).(string))) && (err != nil ==> err == errNotFormatted)
